@@ -246,6 +246,63 @@ def rule_prov(ctx, rep):
                                   "the label's span comes from %s.%s, which the parser only ever fills with SourceSpan::default(): the diagnostic points at offset 0..0" % (s[0].split("::")[-1], s[1]))
             else:
                 r.ok(inst, where, ",".join("%s.%s" % (s[0].split("::")[-1], s[1]) for s in sorted(srcs)) or "span source not a DSL field")
+    # a label that is the *join* of two spans: if one of them can be the default span (0..0, written by some fold or constructor for nodes
+    # it synthesises) the join starts at 0 or ends before it starts.  Looked at with the helpers of the same file spliced in
+    # (`declaration_span(node, &x.keyword_span)`).
+    from vlib.inline import inlined
+    # fields that a transform of the analyzer fills with the default span when it builds a node in place of a parsed one
+    synth_default = {}
+    for ab in ctx.prog.bodies.values():
+        if ab.f["crate"] != "ironplc_analyzer" or "::test" in norm(ab.id):
+            continue
+        for _, _, st in ab.all_stmts():
+            if not (st[0] == "=" and st[2][0] == "agg" and isinstance(st[2][1], dict) and (st[2][1].get("adt") or "").startswith("ironplc_dsl::") and st[2][1].get("adt") != SPAN):
+                continue
+            for fname, o in zip(st[2][1].get("fields", []), st[2][2]):
+                op_ = op_place(o)
+                dd = ab.single_def(ab.root(op_)[0]) if op_ is not None else None
+                if dd and dd[0] == "call":
+                    cal = dd[2].callee or ""
+                    if cal in ("<%s as core::default::Default>::default" % SPAN, SPAN + "::default") or (cal == "core::default::Default::default" and SPAN in (dd[2].ga or "")):
+                        synth_default[(st[2][1]["adt"], fname)] = loc_str(ab.f, st[3])
+    kj = 0
+    for b0 in sorted(ctx.prog.bodies.values(), key=lambda x: x.id):
+        if b0.f["crate"] != "ironplc_analyzer" or "::test" in norm(b0.id):
+            continue
+        if not any((c.callee or "") == "ironplc_dsl::diagnostic::Label::span" for c in b0.calls()):
+            continue
+        b = inlined(ctx.prog, b0)
+        for c in sorted(b.calls(), key=lambda c: (c.loc[0], c.loc[1])):
+            if c.callee != "ironplc_dsl::diagnostic::Label::span":
+                continue
+            p = op_place(c.args[0])
+            d = b.single_def(b.root(p)[0]) if p else None
+            if not (d and d[0] == "call" and (d[2].callee or "") in (SPAN + "::join", SPAN + "::join2")):
+                continue
+            kj += 1
+            fn = norm(b0.id).replace("ironplc_analyzer::", "")
+            maybe = []
+            for a in d[2].args:
+                ap = op_place(a)
+                if ap is None:
+                    continue
+                rt = b.root(ap)
+                fl = [x for x in rt[1] if isinstance(x, list) and x[0] == "f"]
+                srcs = set()
+                if fl and (fl[-1][5] or "").replace("&", "") == SPAN:
+                    srcs = {(fl[-1][3], fl[-1][2])}
+                else:
+                    dd = b.single_def(rt[0])
+                    if dd and dd[0] == "call" and (dd[2].callee or "").endswith("Located>::span") and dd[2].st:
+                        srcs = located_sources(ctx, dd[2].st)
+                maybe += [s_ for s_ in sorted(srcs) if s_ in synth_default]
+            inst = "%s|Label::span(join)#%d" % (fn, kj)
+            if maybe:
+                r.finding(inst + "|joins " + ",".join("%s.%s" % (s_[0].split("::")[-1], s_[1]) for s_ in maybe) + "|may-be-default", loc_str(b.f, c.loc),
+                          "the label is the join of two spans one of which comes from %s, which a transform of the analyzer fills with SourceSpan::default() when it builds the node "
+                          "(%s): for such a node the label runs from offset 0 or ends before it starts" % (", ".join("%s.%s" % (s_[0].split("::")[-1], s_[1]) for s_ in maybe), synth_default[maybe[0]]))
+            else:
+                r.ok(inst, loc_str(b.f, c.loc), "neither end comes from a field that an analyzer transform fills with the default span")
     # join2: `end` must be fed from an `.end`
     rule_join(ctx, rep)
 
